@@ -1,6 +1,6 @@
 (** C16 — repeated sync delivers everything. *)
 From Aranya Require Import base.Tactics gen.GenSync model.Dag model.TravQueue model.Wire model.SyncStore model.SyncResp model.SyncReq model.SyncAnc
-  proofs.SyncStoreProofs proofs.SyncRespProofs proofs.SyncSessionProofs proofs.SyncC17 proofs.SyncCoverProofs proofs.SyncWfCheck proofs.SyncC16.
+  proofs.SyncStoreProofs proofs.SyncRespProofs proofs.SyncSessionProofs proofs.SyncC17 proofs.SyncCoverProofs proofs.SyncWfCheck proofs.SyncC16 proofs.SyncProgressProofs.
 Local Open Scope N_scope.
 
 (** The literal clause "each session delivers at least one missing command
@@ -46,6 +46,21 @@ Check needed_nonempty :
   (exists i h, In (i, h) (st_heads st) /\ ~ covered_by st cmds h) ->
   ts <> [] /\ plan st ts <> [].
 Print Assumptions needed_nonempty.
+
+(** Frontier progress: unless the plan was truncated to SEGMENT_BUFFER_MAX
+    entries, such a session delivers a command that lies OUTSIDE the closure
+    of everything the requester advertised (the tip of one of the sent
+    segments) — the hypothesis of the measure theorem below, discharged for
+    untruncated sessions. *)
+Theorem frontier_progress : frontier_progress_stmt.
+Proof. exact frontier_progress_proof. Qed.
+Check frontier_progress :
+  forall (dbg : bool) (st : store) (cmds : list addr) (ts : list loc),
+  wf_store st -> find_needed_segments dbg st cmds = ROk ts ->
+  (length ts < N.to_nat SEGMENT_BUFFER_MAX)%nat ->
+  (exists i h, In (i, h) (st_heads st) /\ ~ covered_by st cmds h) ->
+  exists x, In x ts /\ valid_loc st x /\ ~ covered_by st cmds (tip st x).
+Print Assumptions frontier_progress.
 
 (** Hence a session that delivers nothing proves the requester holds every
     command of the responder … *)
